@@ -792,6 +792,52 @@ pub fn t13(prop: &str, seed: u64) -> RunDesc {
     d
 }
 
+/// B: a bulk iterator gives back its remaining shares (drop or abort) on one thread while the
+/// owners it has handed out are released on another: whoever brings the count to zero must
+/// notice it, whichever way the two releases interleave (C10, C04).
+pub fn b(prop: &str, seed: u64) -> RunDesc {
+    let mut rng = Rng::new(seed);
+    let mut d = base(&mut rng, prop, "dir-b", seed, 3);
+    d.cfg.stall = None;
+    let ci = 1 + rng.below(4) as u32; // counts 2, 3, 5, 8
+    let count = [1u32, 2, 3, 5, 8][ci as usize];
+    let take = 1 + rng.below((count - 1).min(2) as u64) as u32;
+    let abort = rng.chance(0.4);
+    // the yielded owners land in rc slots 0.. and are published in ROOT[0], ROOT[1]
+    let mut a = vec![o(K::IterOpen, ci, take, 0, 0), o(K::Pin, 0, 0, 0, 0)];
+    for i in 0..take {
+        a.push(o(K::Store, if i == 0 { ROOT0 } else { ROOT1 }, i, 0, 0));
+    }
+    a.push(o(K::Signal, 1, 0, 0, 0));
+    if rng.chance(0.3) {
+        a.push(o(K::IterNext, 0, 0, 0, 0));
+    }
+    if abort {
+        a.push(o(K::IterClose, 0, 1, 0, 0));
+        a.push(o(K::Unpin, 0, 0, 0, 0));
+    } else {
+        a.push(o(K::Unpin, 0, 0, 0, 0));
+        a.push(o(K::IterClose, 0, 0, 0, 0));
+    }
+    d.threads.push(thread(0, "iterator", a));
+    let mut b = vec![o(K::Await, 1, 0, 0, 0), o(K::Pin, 0, 0, 0, 0)];
+    for i in 0..take {
+        let cell = if i == 0 { ROOT0 } else { ROOT1 };
+        if rng.chance(0.5) {
+            b.push(o(K::Store, cell, NONE_SLOT, 0, 0));
+        } else {
+            b.extend([o(K::Swap, cell, i, 0, 0), o(K::DropRc, i, 0, 0, 0)]);
+        }
+    }
+    b.push(o(K::Unpin, 0, 0, 0, 0));
+    d.threads.push(thread(0, "releaser", b));
+    if rng.chance(0.4) {
+        d.threads.push(thread(0, "ticker", rounds(2 + rng.below(5) as usize)));
+    }
+    d.params = J::obj().set("template", "B bulk iterator closed while its yielded owners are released elsewhere").set("count", count).set("taken", take).set("abort", abort);
+    d
+}
+
 /// T5: clock wrap — no collection of the interesting objects while stamps age past 16 / 32
 /// epochs, then the T2 choreography.
 pub fn t5(prop: &str, seed: u64) -> RunDesc {
